@@ -353,6 +353,20 @@ def boundary_shape(ctx, g):
     rev = [bi for bi, t in tb.calls("slice::<impl [T]>::reverse")]
     if not (len(srt) == 1 and len(rev) == 1 and tb.dominates(srt[0], rev[0])):
         bad.append("the components are not sorted and then reversed")
+    # what is sorted are the components in their canonical rotation (sorting the raw traces first makes the order of two components depend on
+    # where each trace happened to start, i.e. on the numbering)
+    if len(srt) == 1:
+        recv = strip(norm(tb.origin(tb.blocks[srt[0]]["term"]["args"][0]), g))
+        while recv[0] == "call" and (recv[1].endswith("deref_mut") or recv[1].endswith("deref") or recv[1].endswith("as_mut_slice")):
+            recv = strip(recv[2][0])
+        if recv[0] == "local":
+            pushed = [strip(norm(tb.origin(t["args"][1]), g)) for bi, t in tb.calls("Vec::<T, A>::push") if strip(norm(tb.origin(t["args"][0]), g)) == recv]
+            defs = [strip(norm(d, g)) for _, d in tb.all_defs_origins(recv[1])]
+            via_map = any(contains(d, lambda y: (isinstance(y, tuple) and y and y[0] == "fn" and y[1].endswith("best_cyclic")) or is_call(y, "best_cyclic")) for d in defs)
+            if not ((pushed and all(is_call(x, "best_cyclic") for x in pushed)) or (not pushed and via_map)):
+                bad.append("the components are sorted before they are rotated into their canonical form (best_cyclic): their order depends on where each trace started")
+        else:
+            bad.append("the sorted list is not a local of trace_boundary")
     # v > 1 guard on the corner push
     okv = False
     for bi, t in tb.calls("Vec::<T, A>::push"):
